@@ -90,6 +90,30 @@ func generate(r *prng.R, o *hx.Out) *scenario {
 			d.conflicts = pickDistinct(r, r.Range(1, 2), i)
 			o.Count("tx:conflicts")
 		}
+		if d.oracle >= 0 && r.Chance(1, 3) {
+			// "double reason": an earlier response to the SAME oracle request is also named in Conflicts (and usually
+			// paid by the same account), so that one pooled transaction is a conflict of the incoming one twice over -
+			// through the Conflicts attribute (this direction when the earlier one is pooled first, the other
+			// direction when this one is pooled first) and through the oracle request id
+			for j := i - 1; j >= 0; j-- {
+				e := sc.defs[j]
+				if e.oracle != d.oracle {
+					continue
+				}
+				dup := false
+				for _, c := range d.conflicts {
+					dup = dup || c == j
+				}
+				if !dup {
+					d.conflicts = append(d.conflicts, j)
+				}
+				if r.Chance(2, 3) {
+					d.signers = append([]int{}, e.signers...)
+				}
+				o.Count("tx:double-reason(conflicts+oracle-id)")
+				break
+			}
+		}
 		if r.Chance(1, 20) {
 			d.conflicts = append(d.conflicts, unknownBase+r.Intn(3))
 		}
@@ -109,6 +133,13 @@ func generate(r *prng.R, o *hx.Out) *scenario {
 			d.net = lvl*int64(d.size) + int64(r.Intn(d.size))
 		}
 		d.sys = []int64{0, 0, 1, 10, 50, 100, 300}[r.Intn(7)]
+		if d.oracle >= 0 && len(d.conflicts) > 0 && r.Chance(2, 3) {
+			// a double-reason response usually outbids the response it names (otherwise ErrConflictsAttribute hides the rest)
+			if j := d.conflicts[len(d.conflicts)-1]; j < i && sc.defs[j].oracle == d.oracle {
+				d.net = sc.defs[j].net + int64(r.Range(1, 60))
+				d.sys = 0
+			}
+		}
 		sc.defs = append(sc.defs, d)
 	}
 	// balances near the sums of fees: exact subset sums, one short, generous, or poor
@@ -284,7 +315,9 @@ func setBalances(r *prng.R, sc *scenario, out map[payerKey]int64) {
 			sub += mx
 		}
 		var b int64
-		switch r.Intn(9) {
+		switch r.Intn(10) {
+		case 9:
+			b = all - fs[r.Intn(len(fs))] - int64(r.Intn(2)) // everything but one, or one short of that (a replacement at the edge)
 		case 0:
 			b = all
 		case 1:
